@@ -194,7 +194,7 @@ func (s *OutlineServer) runConfig(config Config) (func() error, error) {
 			stopErrCh <- lnSet.Close()
 		}()
 
-		startErrCh <- func() error {
+		startErr := func() error {
 			totalCipherCount := len(config.Keys)
 			portCiphers := make(map[int]*list.List) // Values are *List of *CipherEntry.
 			for _, keyConfig := range config.Keys {
@@ -281,12 +281,21 @@ func (s *OutlineServer) runConfig(config Config) (func() error, error) {
 			s.serverMetrics.SetNumAccessKeys(totalCipherCount, lnSet.Len())
 			return nil
 		}()
+		startErrCh <- startErr
+		if startErr != nil {
+			// Don't keep a partially started config around: the deferred Close
+			// releases the listeners it had already acquired.
+			return
+		}
 
 		<-stopCh
 	}()
 
 	err := <-startErrCh
 	if err != nil {
+		if stopErr := <-stopErrCh; stopErr != nil {
+			slog.Warn("Failed to stop the listeners of a config that failed to start.", "err", stopErr)
+		}
 		return nil, err
 	}
 	return func() error {
